@@ -717,6 +717,20 @@ def handleBuild (d : DS) (s : St) (t : Toks) (o : Toks) (rec : Option Obs) : St 
       else s.prop "C08" "built_pairs_are_builder_pairs_plus_id_and_key" s!"want={showPairs r.content} got={showPairs ob.pairs}"
     | _, _ => s
 
+/-- The causes that apply besides an ill-typed value, evaluated as if the offending value were
+    stored: the size of the result, the identity scheme and the signing-key precondition (an
+    implementation may check these before it looks at the value). -/
+def bypassCauses (S : Scheme) (r : Record) (op : Op S) (pk : S.PK) : List String :=
+  let c' : Content := match op with
+    | .insertRaw k raw => Map.insert r.content k raw
+    | .insert k v => Map.insert r.content k v.enc
+    | .removeInsert rm ins =>
+      ins.foldl (fun c kv => Map.insert c kv.1 (encBytes kv.2)) (rm.foldl (fun c k => Map.erase c k) r.content)
+    | _ => r.content
+  let n : Record := { r with content := withPubkey S c' pk, seq := if r.seq + 1 < 2 ^ 64 then r.seq + 1 else r.seq }
+  (if n.size > MAX_ENR_SIZE then ["ExceedsMaxSize"] else []) ++
+    (match preSign S n pk with | .error e => [enrErrStr e] | .ok _ => [])
+
 /-- The error kinds an update may report (C08: "when several causes apply, any of them"): every
     cause is evaluated on its own, whatever the order in which the code checks them. -/
 def admissibleErrs (d : DS) (r : Record) (op : Op d.S) (pk : d.S.PK) (oracle : Option Bytes)
@@ -733,7 +747,7 @@ def admissibleErrs (d : DS) (r : Record) (op : Op d.S) (pk : d.S.PK) (oracle : O
         if k = kId ∧ v ≠ vV4 then some "UnsupportedIdentityScheme"
         else match checkReserved k (encBytes v) with | .error e => some (enrErrStr e) | .ok _ => none
     | _ => []
-  if !valueErrs.isEmpty then valueErrs ++ seqMax ++ fault
+  if !valueErrs.isEmpty then valueErrs ++ bypassCauses S r op pk ++ seqMax ++ fault
   else
     -- evaluate every cause on its own: with and without the pre-sign size check, at the real
     -- sequence number and just below the maximum (same encoded length)
@@ -790,9 +804,12 @@ def handleStep (d : DS) (s : St) (t : Toks) (o : Toks) (after : Obs) : St :=
       -- the model needs the signer's answer; if the implementation never asked the signer although
       -- the model's update reaches the signing call, the model's outcome is "reaches the signer"
       let mres := if req.isSome && log.isEmpty then "reaches-signer" else mres
-      let s := s.cmp "step.res" (resKind mres) (resKind res)
       -- C08: the reported error kind matches one of the causes that apply; success only without a cause
       let adm := admissibleErrs d r op pk oracle (!log.isEmpty) (log.any (·.2.isNone))
+      -- outcome: both succeed, or both fail with a kind among the causes that apply (the model's own
+      -- kind is one of them: `C08_admissible_sound`); two different applicable kinds are no difference
+      let s := if resClass res == "err" && resClass mres == "err" && adm.contains (resKind res) then s.chk
+        else s.cmp "step.res" (resKind mres) (resKind res)
       let s := if resClass res == "err" then
           (if adm.contains (resKind res) then s.chk
            else s.prop "C08" "error_kind_matches_a_cause" s!"op={opn} impl={resKind res} admissible={adm}")
@@ -826,8 +843,12 @@ def handleStep (d : DS) (s : St) (t : Toks) (o : Toks) (after : Obs) : St :=
       -- C09: refusal for size exactly when the model's rule says so
       -- (exactness is required of the built-in key types with their 64-byte signatures; for a scheme
       --  with variable-length signatures only the upper bound, which `checkRecord` enforces)
+      -- (another applicable cause may be reported in place of the size, and the size in place of
+      --  another applicable cause: C08 "when several causes apply, any of them")
       let s := if d.name != "toy" && (resKind res == "ExceedsMaxSize" || resKind mres == "ExceedsMaxSize") then
-          (if resKind res == resKind mres then s.chk else s.prop "C09" "refusal_matches_size_rule" s!"op={opn} model={mres} impl={res}")
+          (if resKind res == resKind mres then s.chk
+           else if resClass res == "err" && resClass mres == "err" && adm.contains (resKind res) then s.chk
+           else s.prop "C09" "refusal_matches_size_rule" s!"op={opn} model={mres} impl={res}")
         else s
       -- C14: what a typed setter stored reads back as the value set
       let s := if resClass res == "ok" then
